@@ -93,9 +93,10 @@ def _fresh_ppc(net):
         return None, "UserWarning"
 
 
-def _oracle(ctx, net, opts, case):
+def _oracle(ctx, net, opts, case, bypassed=False):
     """the laws of the property on the result tables"""
     bad = []
+    known = []
     rb = net.res_bus
     vdl = opts["voltage_depend_loads"]
     enforce = bool(opts["enforce_q_lims"])
@@ -144,7 +145,8 @@ def _oracle(ctx, net, opts, case):
                 bad.append("gen %d: bus vm %r != setpoint %r (no limit enforcement applies)" % (i, rb.vm_pu.at[b], vset))
         else:
             if q > qmax + TOLQ or q < qmin - TOLQ:
-                bad.append("gen %d: q %r outside [%r, %r] with enforce_q_lims" % (i, q, qmin, qmax))
+                # recorded defect: every bus is a reference bus -> solver and q-limit loop are bypassed (guard G04b false)
+                (known if bypassed else bad).append("gen %d: q %r outside [%r, %r] with enforce_q_lims" % (i, q, qmin, qmax))
             if not held and not (abs(q - qmax) <= TOLQ or abs(q - qmin) <= TOLQ):
                 bad.append("gen %d: bus vm %r != setpoint %r but q %r is not at a limit [%r, %r]" % (i, rb.vm_pu.at[b], vset, q, qmin, qmax))
     for tab in ("sgen", "storage"):
@@ -181,6 +183,9 @@ def _oracle(ctx, net, opts, case):
             bad.append("shunt %d: result %r,%r != step*p*(v*vn_bus/vn)^2 %r,%r" % (i, net.res_shunt.p_mw.at[i], net.res_shunt.q_mvar.at[i], ep, eq))
     for w in bad[:3]:
         ctx.violation("spec", w, case)
+    for w in known[:1]:
+        ctx.violation("C04-qlim-bypass", w + " (all buses are reference buses: solver and q-limit loop bypassed)", case)
+        ctx.count("known:C04-qlim-bypass")
     return bad
 
 
@@ -218,7 +223,11 @@ def _one(ctx, rng, sterms, spend, qterms, qpend, given=None, sample=False):
     ctx.count("outcome_" + (err or "ok"))
     ctx.count("enforce_%s" % opts["enforce_q_lims"])
     g_final = None
-    if err is None:
+    bypassed = err is None and "gen" not in net._ppc["internal"]
+    if err is None and "gen" not in net._ppc["internal"]:
+        ctx.count("pf_bypassed_only_reference_buses")      # powerflow.py bypasses the solver: nothing to observe in the loop
+        rec = []
+    elif err is None:
         g_final = [float(v) for v in net._ppc["internal"]["gen"][:, QG]]     # before _pd2ppc below rebuilds net._ppc
     if err and err.startswith("raise:"):
         ctx.count(err)
@@ -248,6 +257,9 @@ def _one(ctx, rng, sterms, spend, qterms, qpend, given=None, sample=False):
     if malformed:
         ctx.count("malformed_" + malformed + "_" + (err or "ok"))
     # (b) loop replay
+    if rec and any(v != v for _, qg in rec for v in qg):
+        ctx.count("loop_oracle_returned_nan")       # diverged Newton run: NaN cannot be replayed (and is never a converged result)
+        rec = []
     if opts["enforce_q_lims"] and err in (None, "IndexError", "not_converged") and rec:
         from pandapower.pd2ppc import _pd2ppc
         _, ppci0 = _pd2ppc(net)
@@ -271,7 +283,13 @@ def _one(ctx, rng, sterms, spend, qterms, qpend, given=None, sample=False):
             nontriv = True
     # oracle
     if err is None:
-        _oracle(ctx, net, opts, case)
+        # the observed bypass must be the one of the model guard G04b: every in-service ppc bus is a reference bus
+        if bypassed:
+            types = set(int(t) for t in net._ppc["bus"][:, BUS_TYPE] if int(t) != 4)
+            if types != {3}:
+                ctx.violation("spec", "solver bypassed although bus types are %s" % sorted(types), case)
+                bypassed = False
+        _oracle(ctx, net, opts, case, bypassed=bypassed)
     ctx.case({"net_sha": hashlib.sha1(net_js.encode()).hexdigest(), "opts": opts}, nontrivial=nontriv,
              sample={"input": {"opts": opts, "gens": json.loads(net.gen[["bus", "p_mw", "vm_pu", "min_q_mvar", "max_q_mvar", "in_service"]].to_json()) if "min_q_mvar" in net.gen else {}},
                      "impl": {"outcome": err or "ok", "loop": rec[:4], "res_gen_q": [float(v) for v in net.res_gen.q_mvar.values] if err is None else None}} if sample else None)
@@ -292,12 +310,12 @@ def run(ctx, only=None):
     if only is None:
         for given in _corpus():
             _one(ctx, rng, sterms, spend, qterms, qpend, given=given)
-        for k in range(ctx.n(200, 3000)):
+        for k in range(ctx.n(130, 3000)):
             _one(ctx, rng, sterms, spend, qterms, qpend, sample=k < 2)
     else:
         for given in only:
             _one(ctx, rng, sterms, spend, qterms, qpend, given=given, sample=True)
-    sm = ctx.coq_eval("c04s", "Base.QN Base.QC C01.Model C04.Model", sterms, shard=40) if sterms else []
+    sm = ctx.coq_eval("c04s", "Base.QN Base.QC C01.Model C04.Model", sterms, shard=25, timeout=900) if sterms else []
     for (impl, case, err), m in zip(spend, sm):
         ctx.corr_checked += 1
         if isinstance(impl, cq.Err) or isinstance(m, cq.Err):
@@ -315,7 +333,7 @@ def run(ctx, only=None):
                 bad.append("bus %d BUS_TYPE impl %r model %r" % (k, i[2], ty))
         if bad:
             ctx.disagreement("setpoint stage: " + "; ".join(bad[:4]), case)
-    qm = ctx.coq_eval("c04q", "Base.QN Base.QC C01.Model C04.Model", qterms, shard=40) if qterms else []
+    qm = ctx.coq_eval("c04q", "Base.QN Base.QC C01.Model C04.Model", qterms, shard=25, timeout=900) if qterms else []
     for (impl, case), m in zip(qpend, qm):
         ctx.corr_checked += 1
         if isinstance(impl, cq.Err) or isinstance(m, cq.Err):
